@@ -7,16 +7,18 @@ namespace vh {
 struct World {
     File f;
     Block b, b2;
-    DataArray da1, da2, pos, ext, feat;
+    DataArray da1, da2, pos, ext, feat, da_u, b2_pos;
     DataFrame df;
-    Tag tag; MultiTag mtag; Group grp;
-    Source src, src_child, src2;
+    Tag tag, tag_u; MultiTag mtag; Group grp;
+    Source src, src_child, src_child2, src_leaf, src2;
     Section sec, sec_child, sec2;
     Property prop, prop2;
     Feature tfeat, mfeat;
 };
 
 static const char *WORLD_FILE = "world.h5";
+// a legal entity name that has the shape of a UUID (name-or-id resolution must still treat it as a name)
+static const char *UUID_NAME = "sessionA-2024-0001-0002-000000000003";
 
 inline void build_world(World &w, FileMode mode = FileMode::Overwrite) {
     w.f = File::open(WORLD_FILE, mode);
@@ -34,6 +36,8 @@ inline void build_world(World &w, FileMode mode = FileMode::Overwrite) {
     w.b2 = w.f.createBlock("blk2", "session");
     w.src = w.b.createSource("src", "electrode");
     w.src_child = w.src.createSource("child", "channel");
+    w.src_child2 = w.src.createSource("child2", "channel");
+    w.src_leaf = w.src_child2.createSource("leaf", "contact");
     w.src2 = w.b.createSource("src2", "electrode");
     w.src.metadata(w.sec_child);
 
@@ -46,6 +50,12 @@ inline void build_world(World &w, FileMode mode = FileMode::Overwrite) {
     { std::vector<int32_t> v = {1, 2, 3, 4, 5, 6}; w.da2.setData(DataType::Int32, v.data(), NDSize({2, 3}), NDSize({0, 0})); }
     w.da2.appendSetDimension({"r0", "r1"});
     w.da2.appendRangeDimension({1.0, 2.0, 4.0}, "x", "mm");
+    w.da2.addSource(w.src_child2);
+    w.da_u = w.b.createDataArray(UUID_NAME, "signal", DataType::Double, NDSize({2}));
+    { std::vector<double> v = {0.5, 0.25}; w.da_u.setData(v); }
+    w.da_u.appendSetDimension();
+    w.b2_pos = w.b2.createDataArray("pos", "positions", DataType::Double, NDSize({2}));      // same name as blk/pos, other block
+    { std::vector<double> v = {3.0, 4.0}; w.b2_pos.setData(v); }
     w.pos = w.b.createDataArray("pos", "positions", DataType::Double, NDSize({2}));
     { std::vector<double> v = {1.0, 2.0}; w.pos.setData(v); }
     w.pos.appendSetDimension();
@@ -73,6 +83,9 @@ inline void build_world(World &w, FileMode mode = FileMode::Overwrite) {
     w.mtag.addReference(w.da1);
     w.mfeat = w.mtag.createFeature(w.feat, LinkType::Indexed);
     w.mtag.addSource(w.src);
+    w.mtag.addSource(w.src_leaf);
+    w.tag_u = w.b.createTag(UUID_NAME, "event", {0.0});
+    w.tag_u.addReference(w.da_u);
 
     w.grp = w.b.createGroup("grp", "trial");
     w.grp.addDataArray(w.da1); w.grp.addTag(w.tag); w.grp.addMultiTag(w.mtag); w.grp.addDataFrame(w.df);
@@ -85,6 +98,8 @@ inline void rebind_world(World &w) {
     w.b = w.f.getBlock("blk"); w.b2 = w.f.getBlock("blk2");
     if (!w.b) return;
     w.src = w.b.getSource("src"); w.src_child = w.src ? w.src.getSource("child") : Source(); w.src2 = w.b.getSource("src2");
+    w.src_child2 = w.src ? w.src.getSource("child2") : Source(); w.src_leaf = w.src_child2 ? w.src_child2.getSource("leaf") : Source();
+    w.da_u = w.b.getDataArray(UUID_NAME); w.tag_u = w.b.getTag(UUID_NAME); w.b2_pos = w.b2 ? w.b2.getDataArray("pos") : DataArray();
     w.da1 = w.b.getDataArray("da1"); w.da2 = w.b.getDataArray("da2"); w.pos = w.b.getDataArray("pos"); w.ext = w.b.getDataArray("ext"); w.feat = w.b.getDataArray("feat");
     w.df = w.b.getDataFrame("df"); w.tag = w.b.getTag("tag"); w.mtag = w.b.getMultiTag("mtag"); w.grp = w.b.getGroup("grp");
     if (w.tag && w.tag.featureCount() > 0) w.tfeat = w.tag.getFeature((ndsize_t)0);
@@ -93,7 +108,7 @@ inline void rebind_world(World &w) {
 
 inline void drop_handles(World &w) {
     w.tfeat = none; w.mfeat = none; w.prop = none; w.prop2 = none;
-    w.grp = none; w.mtag = none; w.tag = none; w.df = DataFrame();
+    w.grp = none; w.mtag = none; w.tag = none; w.tag_u = none; w.df = DataFrame(); w.da_u = none; w.b2_pos = none; w.src_leaf = none; w.src_child2 = none;
     w.feat = none; w.ext = none; w.pos = none; w.da2 = none; w.da1 = none;
     w.src_child = none; w.src2 = none; w.src = none; w.b2 = none; w.b = none;
     w.sec_child = none; w.sec2 = none; w.sec = none;
